@@ -1,4 +1,64 @@
-import PycommModel
+/-
+  C06 — data-type codecs round-trip every value.
+  Only property statements live here; proofs are in PycommProofs/CodecRoundTrip.lean.
+-/
+import PycommProofs.CodecRoundTrip
 namespace Pycomm.C06
-theorem placeholder : True := trivial
+open Pycomm
+
+/-- Every canonical in-domain value of every tail-safe type (elementary, strings, bit strings, byte
+    placeholders, fixed arrays, all-named structures, Logix fixed-capacity strings, nested to any depth)
+    encodes, and decoding the encoding followed by ANY further bytes returns the value and leaves
+    exactly those further bytes: values compose in structures and arrays. -/
+theorem decode_encode (t : Ty) (v : PyVal) (h : Canon t v) :
+    ∃ bs, encode t v = .ok bs ∧ ∀ rest, decode t (bs ++ rest) = .ok (v, rest) :=
+  Pycomm.decode_encode t v h
+
+/-- An unbounded array over a buffer holding exactly the encodings of its elements decodes to those
+    elements and consumes the whole buffer (element type tail-safe and never zero-width). -/
+theorem decode_encode_unbounded (t : Ty) (vs : List PyVal) (hb : t.isBits = none)
+    (hw : PosWidth t) (h : ∀ x ∈ vs, Canon t x) :
+    ∃ bs, encode (.arr .all t) (.list vs) = .ok bs ∧ decode (.arr .all t) bs = .ok (.list vs, []) :=
+  Pycomm.decode_encode_unbounded t vs hb hw h
+
+/-- Length-prefixed arrays: the documented contract is asymmetric (encode writes no prefix);
+    a buffer holding the count in the length type followed by the encoded elements decodes to them. -/
+theorem decode_encode_prefixed (k : IntK) (t : Ty) (vs : List PyVal) (hb : t.isBits = none)
+    (hw : PosWidth t) (hk : k.signed = false) (hn : (vs.length : Int) ≤ k.hi) (h : ∀ x ∈ vs, Canon t x) :
+    ∃ bs, encode (.arr (.pref k) t) (.list vs) = .ok bs ∧
+      ∀ rest, decode (.arr (.pref k) t) (leBytes k.size vs.length ++ bs ++ rest) = .ok (.list vs, rest) :=
+  Pycomm.decode_encode_prefixed k t vs hb hw hk hn h
+
+/-- Over-long inputs to a fixed array are truncated to the array length. -/
+theorem encode_fixed_truncates (n : Nat) (t : Ty) (vs extra : List PyVal) (hb : t.isBits = none)
+    (hn : vs.length = n) :
+    encode (.arr (.fixed n) t) (.list (vs ++ extra)) = encode (.arr (.fixed n) t) (.list vs) :=
+  Pycomm.encode_fixed_truncates n t vs extra hb hn
+
+/-- A tuple is as good as a list. -/
+theorem encode_tuple_eq_list (l : ArrLen) (t : Ty) (vs : List PyVal) :
+    encode (.arr l t) (.tuple vs) = encode (.arr l t) (.list vs) :=
+  Pycomm.encode_tuple_eq_list l t vs
+
+/-- Encoding a structure from its canonical dict or from the positional sequence of the same values
+    gives identical bytes. -/
+theorem struct_dict_eq_seq (ms : Members) (kvs : List (Name × PyVal)) (h : CanonMembers ms kvs) :
+    encode (.struct ms) (.dict kvs) = encode (.struct ms) (.list (kvs.map (·.2))) :=
+  Pycomm.struct_dict_eq_seq ms kvs h
+
+/-- Bit strings: 8·size bools round-trip, least significant bit first. -/
+theorem bits_roundtrip (k : IntK) (hk : k.signed = false) (bs : List Bool) (h : bs.length = 8 * k.size)
+    (rest : Bytes) :
+    ∃ enc, encode (.bits k) (.list (bs.map PyVal.bool)) = .ok enc ∧
+      decode (.bits k) (enc ++ rest) = .ok (.list (bs.map PyVal.bool), rest) :=
+  Pycomm.bits_roundtrip k hk bs h rest
+
+/-! non-vacuity: concrete non-trivial values satisfy the hypotheses -/
+example : Canon (.arr (.fixed 2) (.struct (.cons (some [97]) (.int .int) (.cons (some [98]) (.str .uint .latin1) .nil))))
+    (.list [.dict [([97], .int (-2)), ([98], .str [104, 105])], .dict [([97], .int 7), ([98], .str [])]]) := by
+  simp [Canon, CanonMembers, Members.names, IntK.lo, IntK.hi, IntK.signed, IntK.size, TextOk, Ty.isBits]
+
+example : PosWidth (.struct (.cons none (.arr (.fixed 0) .bool) (.cons (some [97]) (.int .dint) .nil))) := by
+  simp [PosWidth, PosWidthMembers]
+
 end Pycomm.C06
